@@ -63,8 +63,14 @@ class LoggedStub(StubSim):
         self.obs_log.append((self.idx[agent_id], o))
         return o
 
+    fault_for = None                      # (round 6) the agent whose next get_reward raises, once, before anything
+    fault_fired = False
+
     def get_reward(self, agent_id, **kwargs):
         a = self.idx[agent_id]
+        if self.fault_for == a:
+            self.fault_for, self.fault_fired = None, True
+            raise RuntimeError("injected fault: the simulation could not compute this reward just now")
         if self.done_at[a] <= self.t:
             self.rew_final.add(a)
         return super().get_reward(agent_id, **kwargs)
@@ -240,7 +246,22 @@ def run_calls(script, groups, nulls, discrete, calls, seconds=10.0):
                 elif kind == "o":
                     st, val = _call(lambda: w.get_obs(ref_id(call[1])))
                 elif kind == "w":
-                    st, val = _call(lambda: w.get_reward(ref_id(call[1])))
+                    # (round 6) a fault at a particular point: one read in three of a super agent's reward is first
+                    # attempted while the simulation fails on the reward of the FIRST agent that super agent covers
+                    # (nothing has been read by then); the caller catches that and asks again.  The attempt must be
+                    # invisible: only the second call is recorded and compared with the model.
+                    ref = call[1]
+                    if isinstance(ref, list) and ref and ref[0] == "S" and (len(used) + int(ref[1])) % 3 == 0 \
+                            and 0 <= int(ref[1]) < len(groups) and groups[int(ref[1])]:
+                        sim.fault_for, sim.fault_fired = int(groups[int(ref[1])][0]), False
+                        st, val = _call(lambda: w.get_reward(ref_id(ref)))
+                        fired, sim.fault_for = sim.fault_fired, None
+                        if fired:
+                            st, val = _call(lambda: w.get_reward(ref_id(ref)))
+                        # (not fired: the wrapper did not ask for that reward - already handed over -, the attempt
+                        # WAS the call)
+                    else:
+                        st, val = _call(lambda: w.get_reward(ref_id(call[1])))
                 elif kind == "d":
                     st, val = _call(lambda: w.get_done(ref_id(call[1])))
                 elif kind == "a":
